@@ -1,4 +1,5 @@
 import NeoFS.Driver.EC
+import NeoFS.Driver.Int256
 open NeoFS NeoFS.Driver
 
 /-- State of all stateful models; pure models need none. -/
@@ -10,6 +11,7 @@ def stepLine (s : DState) (line : String) : DState × String :=
   if o.engine == "reset" then ({}, "=> reset")
   else match o.engine with
   | "ec" => (s, ecStep o)
+  | "int256" => (s, int256Step o)
   | _ => (s, "=> bad-op")
 
 partial def loop (h : IO.FS.Stream) (out : IO.FS.Stream) (s : DState) : IO Unit := do
